@@ -11,6 +11,21 @@ import (
 	"verif/internal/xref"
 )
 
+// cappedFailure marks a case whose result sequence exceeded harness.MaxResults
+// (paths over reverse axes yield duplicates combinatorially). Such a case is
+// inconclusive for the value properties - it is skipped and counted, never
+// reported; termination is C15's business, decided there by an operation budget.
+var cappedFailure = harness.Failf("result fits the drain cap", fmt.Sprintf("more than %d results", harness.MaxResults), "inconclusive: result sequence larger than the harness cap")
+
+// inconclusive reports (and counts) a capped case.
+func inconclusive(u *harness.Unit, f *harness.Failure) bool {
+	if f == cappedFailure {
+		u.Skip()
+		return true
+	}
+	return false
+}
+
 // compileLive compiles l.Expr; a compile error or panic on a generated valid expression is a failure.
 func compileLive(l *harness.Live) (*xpath.Expr, *harness.Failure) {
 	e, err, pan := harness.Compile(l.Expr, l.NSMap, l.HasNS)
@@ -41,7 +56,7 @@ func selectWith(e *xpath.Expr, l *harness.Live) ([]int, *harness.Failure) {
 		return nil, harness.Failf("Select completes", pan.String(), "Select panicked")
 	}
 	if capped {
-		return nil, harness.Failf("Select completes", fmt.Sprintf("more than %d results", harness.MaxResults), "Select did not stop")
+		return nil, cappedFailure
 	}
 	return ids, nil
 }
@@ -61,7 +76,7 @@ func evalWith(e *xpath.Expr, l *harness.Live) (harness.Value, *harness.Failure) 
 		return v, harness.Failf("Evaluate completes", pan.String(), "Evaluate panicked")
 	}
 	if capped {
-		return v, harness.Failf("Evaluate completes", fmt.Sprintf("more than %d results", harness.MaxResults), "iterator did not stop")
+		return v, cappedFailure
 	}
 	return v, nil
 }
@@ -159,4 +174,15 @@ func shapeLabels(e xast.Expr) []string {
 		}
 	})
 	return out
+}
+
+// skipKnown reports whether e falls into the exclusion class of a confirmed
+// known finding (and counts the exclusion). Classes are switched on by the
+// driver only while the finding's replay still reproduces.
+func skipKnown(u *harness.Unit, e xast.Expr) bool {
+	if harness.Excluded("round-int") && xast.HasCall(e, "round") {
+		u.Exclude("round-int")
+		return true
+	}
+	return false
 }
